@@ -156,8 +156,10 @@ MODEL = {
 ENTRIES = [e for e in ENTRIES if e[0] in MODEL]
 BY_ID = dict((e[0], e) for e in ENTRIES)
 
-# (entry id -> value classes) whose outcome depends on how much memory the host grants: skipped as boundary-ambiguous
-MEMORY_SENSITIVE = {}
+# (entry id -> value classes) whose outcome depends on how much memory the host grants, or on the rounding of a double
+# that the exact rationals of the model do not have (8 - 1e-300 is 8.0 in binary64: 8 bins, 7 in the model): skipped
+# and counted as boundary-ambiguous
+MEMORY_SENSITIVE = {"histrestr.lowerBoundary": {"tiny-real"}}
 
 # second base variable with a grid (atom 3), used by the roll-back scenarios
 BASE2 = cv("g0", 3, GRIDCV, "    oneSiteTotalForce on\n")
